@@ -39,7 +39,7 @@ Theorem C10_recv_from_source (attr : string -> gv) (bufsize : Z) :
   forall l eff st b, has_buf st b ->
   exists st', py_sock_recv rcv attr (SW l eff st) =
               (Ok (gbool (fst (recv {| buf := b; evs := l |}))), SW (evs (snd (recv {| buf := b; evs := l |}))) eff st')
-              /\ has_buf st' (buf (snd (recv {| buf := b; evs := l |}))).
+              /\ has_buf st' (buf (snd (recv {| buf := b; evs := l |}))) /\ frame st' st.
 Proof. intros; eapply recv_io; eassumption. Qed.
 Print Assumptions C10_recv_from_source.
 
@@ -48,6 +48,23 @@ Theorem C10_sock_read_from_source (attr : string -> gv) (bufsize : Z) :
   forall (n : nat) l b eff st fuel, has_buf st b -> (length l < fuel)%nat ->
   exists st', py_sockread rcv attr fuel (gint (Z.of_nat n)) (SW l eff st) =
               (Ok (gbytes (fst (sock_read_aux n b l))), SW (evs (snd (sock_read_aux n b l))) eff st')
-              /\ has_buf st' (buf (snd (sock_read_aux n b l))).
+              /\ has_buf st' (buf (snd (sock_read_aux n b l))) /\ frame st' st.
 Proof. intros; eapply read_io; eassumption. Qed.
 Print Assumptions C10_sock_read_from_source.
+
+(* SocketWrapper.readline() as the source has it now: the line the model's loop returns, the same recv() results consumed, the
+   same buffer left - whenever the model's loop ends within `fuel` rounds (rl_opt: the model's loop with running out of
+   rounds made visible; rl_opt_aux: it then is sock_readline_aux) *)
+Theorem C10_sock_readline_from_source (attr : string -> gv) (bufsize : Z) :
+  attr "_bufsize" = gint bufsize -> mem_s "py_sock_recv" translated_io = true -> mem_s "py_sockread" translated_io = true ->
+  mem_s "py_sockreadline" translated_io = true ->
+  forall fuel l b eff st r, has_buf st b -> (length l < fuel)%nat ->
+  rl_opt fuel [] {| buf := b; evs := l |} = Some r ->
+  exists st', py_sockreadline rcv attr fuel (SW l eff st) = (Ok (gbytes (fst r)), SW (evs (snd r)) eff st')
+              /\ has_buf st' (buf (snd r)).
+Proof. intros; eapply readline_io; eassumption. Qed.
+Print Assumptions C10_sock_readline_from_source.
+
+Theorem C10_rl_opt_is_model : forall f line s r, rl_opt f line s = Some r -> sock_readline_aux f line s = r.
+Proof. exact rl_opt_aux. Qed.
+Print Assumptions C10_rl_opt_is_model.
